@@ -255,6 +255,10 @@ def run(ctx):
             if not found:
                 ctx.report("C15-offender", variant + "/missing", "no located %s error in the %s arm" % (kind, variant), where_of(ee))
     ctx.guarded('C15-offender', d_off >= 6, _old_offender)
+    # ... and the identifier is still where the user wrote it after a macro use that mentions it was expanded (crate's lexer, parser
+    # and expander on a macro definition and a use spread over several lines)
+    from . import readtables as _rt15
+    _rt15.rule_macro_argument_locations(ctx, "C15-offender")
 
     # ------------------------------------------------------------------ C15-single-origin
     ctx.rule("C15-single-origin", "a location never comes from another text")
